@@ -279,6 +279,26 @@ func cmdSelftest(args []string) int {
 		}
 	}
 
+	// 5e. LOOP-ACCUM, ARGMAX
+	if fns, err := ssaSnippet(selftestLoops); err != nil {
+		check("ssa snippet loops", false, "%v", err)
+	} else {
+		for name, want := range map[string]int{"leaks": 1, "perIteration": 0, "usedAfter": 0} {
+			got := len(findLoopAccumLeaks(fns[name]))
+			check("findLoopAccumLeaks/"+name, (got > 0) == (want > 0), "%d per-iteration lists outliving their iteration (want %d)", got, want)
+		}
+		for name, want := range map[string][2]int{"argmaxGood": {1, 1}, "argmaxStale": {1, 0}, "argmaxNeverUpdated": {1, 0}, "countAbove": {0, 0}} {
+			sites := findArgmaxSites(fns[name])
+			ok := 0
+			for _, s := range sites {
+				if s.OK {
+					ok++
+				}
+			}
+			check("findArgmaxSites/"+name, (len(sites) > 0) == (want[0] > 0) && (ok > 0) == (want[1] > 0), "%d running arg-max sites, %d correct (want %v)", len(sites), ok, want)
+		}
+	}
+
 	// 6. every rule table entry that names a function has the documented key shape
 	var badKeys []string
 	for k := range c14NameFilterAllowed {
@@ -483,5 +503,87 @@ func consulted(xs []string) bool {
 		}
 	}
 	return ok
+}
+`
+
+const selftestLoops = `package snippet
+
+func consume([]string) {}
+
+func leaks(roots map[string][]string) {
+	filters := []string{".proto"}
+	for _, ex := range roots {
+		for _, e := range ex {
+			filters = append(filters, e)
+		}
+		consume(filters)
+	}
+}
+
+func perIteration(roots map[string][]string) {
+	for _, ex := range roots {
+		filters := []string{".proto"}
+		for _, e := range ex {
+			filters = append(filters, e)
+		}
+		consume(filters)
+	}
+}
+
+func usedAfter(roots map[string][]string) {
+	var all []string
+	for _, ex := range roots {
+		all = append(all, ex...)
+	}
+	consume(all)
+}
+
+type item struct{ t int }
+
+func argmaxGood(xs []item) item {
+	best := xs[0]
+	bt := xs[0].t
+	for _, x := range xs[1:] {
+		if x.t > bt {
+			best = x
+			bt = x.t
+		}
+	}
+	return best
+}
+
+func argmaxStale(xs []item) item {
+	best := xs[0]
+	bt := xs[0].t
+	for _, x := range xs[1:] {
+		if x.t > bt {
+			best = x
+		} else {
+			bt = bt + 0
+		}
+	}
+	_ = bt
+	return best
+}
+
+func argmaxNeverUpdated(xs []item) int {
+	idx := 0
+	bt := xs[0].t
+	for i, x := range xs {
+		if x.t > bt {
+			idx = i
+		}
+	}
+	return idx
+}
+
+func countAbove(xs []item, limit int) int {
+	n := 0
+	for _, x := range xs {
+		if x.t > limit {
+			n++
+		}
+	}
+	return n
 }
 `
